@@ -5,7 +5,6 @@ package ref
 import (
 	"errors"
 	"math/big"
-	"strconv"
 	"unicode/utf16"
 	"unicode/utf8"
 )
@@ -411,8 +410,8 @@ func Decode(d []byte) (v interface{}, end int, err error) {
 			continue
 		default:
 			e := Number(d, i)
-			f, perr := strconv.ParseFloat(string(d[i:e]), 64)
-			if perr != nil {
+			f, overflow := Float(d[i:e])
+			if overflow {
 				return nil, 0, ErrRange
 			}
 			val, i = f, e
